@@ -1,18 +1,7 @@
 #![allow(dead_code, unused_imports, unused_variables, clippy::all)]
-mod attacks;
-mod engine;
-mod lincode;
-mod model;
-mod oracle;
-mod props;
-mod refv;
-mod replay;
-mod schemes;
-mod session;
-mod types;
-mod util;
+use pcverif::{engine, props, util};
 
-use engine::Tier;
+use pcverif::engine::Tier;
 
 fn usage() -> ! {
     eprintln!("usage: pcverif run <ID> <quick|thorough> | pcverif replay <file> | pcverif list");
